@@ -446,6 +446,7 @@ func cmdDrive(fs *flag.FlagSet, args []string) {
 	twinAll := fs.Bool("twin", false, "twin-scan a clone with a fresh controller at every scan")
 	dryPct := fs.Int("dry", 12, "percent of groups in dry mode")
 	fine := fs.Bool("fine", false, "large node sizes: fine-grained utilisation values")
+	realtime := fs.Duration("realtime", 0, "real-time mode: one tick is this long and really elapses (e.g. 4s); 0 = virtual time")
 	enum := fs.Int("enum", 0, "percent of scans at which every call of the scan is failed in turn on clones of the world (fault enumeration by call index)")
 	enum2 := fs.Bool("enum2", false, "with -enum: also every pair of calls")
 	iso := fs.Bool("iso", false, "isolation twin: re-run every history without the events of one group and record both call sequences (C12)")
@@ -453,6 +454,9 @@ func cmdDrive(fs *flag.FlagSet, args []string) {
 	events := fs.String("events", "", "output: all events (for replay)")
 	par := fs.Int("par", 1, "parallel histories (metrics are process-global: keep 1 when gauges matter)")
 	fs.Parse(args)
+	if *realtime > 0 {
+		world.Tick, world.RealTime = *realtime, true
+	}
 	tr := newOut(*trace)
 	defer tr.close()
 	var ev *out
@@ -489,6 +493,7 @@ func driveOne(src string, seed int64, o genOpts, tr, ev *out) int {
 	if err != nil {
 		fatal("build:", err)
 	}
+	w.NoGauges = world.RealTime // histories run concurrently in one process in real-time mode; gauges are process-global
 	// buffer this history's lines so that histories do not interleave in the output
 	var lines []interface{}
 	var evs []interface{}
@@ -512,6 +517,9 @@ func driveOne(src string, seed int64, o genOpts, tr, ev *out) int {
 				lines = append(lines, enumFaults(w, seed, fmt.Sprintf("%s#enum%d", src, len(evs)-1), o.enum2)...)
 			}
 			line := w.Scan(e.Faults)
+			if w.Late {
+				break // real-time mode: the scan overran its tick budget; its record is not trustworthy
+			}
 			line.Src, line.ID, line.Twin = src, len(evs)-1, twin
 			lines = append(lines, line)
 			scans++
@@ -520,6 +528,9 @@ func driveOne(src string, seed int64, o genOpts, tr, ev *out) int {
 		}
 		e.Applied = apply(w, &e)
 		evs = append(evs, e)
+		if w.Late {
+			break // real-time mode: a step overran its tick budget; keep what was recorded before
+		}
 	}
 	if o.iso {
 		isoTwin(src, seed, init, evs, lines, r, tr)
